@@ -281,6 +281,7 @@ def gate_has(gs, pred, label):
 # kind consistency
 # ---------------------------------------------------------------------------------------------
 import re
+import facts
 
 KIND_RE = re.compile(r"(counter|gauge|histogram)", re.I)
 
@@ -584,3 +585,42 @@ def iteration_context(cs):
                     return sym_through(a[0], *ITER_VIEWS), None
         return None, "the enclosing closure is not the argument of Iterator::for_each"
     return None, "the call is not inside a loop or a for_each closure"
+
+
+def cas_flow(fn, cas_call):
+    """P = "the compare_exchange of this call succeeded" propagated over fn's body (helpers spliced in)."""
+    bb = cas_call.bb
+
+    def is_cas(s):
+        s = strip_sym(s)
+        if not (isinstance(s, tuple) and s and s[0] == "call"):
+            return False
+        return any(isinstance(n, str) and path_is(n, "compare_exchange") for n in (s[1], s[3]))
+
+    def csw(subj, variant):
+        if is_cas(subj):
+            return {"Ok": "P", "Err": "N"}.get(variant)
+        return None
+
+    def cbool(s):
+        s = strip_sym(s)
+        if not (isinstance(s, tuple) and s and s[0] == "call" and isinstance(s[1], str)):
+            return None
+        a0 = strip_sym(s[2][0]) if s[2] else None
+        if a0 is None or not is_cas(a0):
+            return None
+        if path_is(s[1], "Result<T, E>::is_ok"):
+            return ("P", "N")
+        if path_is(s[1], "Result<T, E>::is_err"):
+            return ("N", "P")
+        other = strip_sym(s[2][1]) if len(s[2]) > 1 else None
+        is_ok_lit = other is not None and other[0] == "agg" and other[2] == "Ok"
+        if is_ok_lit and (path_is(s[1], "PartialEq::eq") or s[1].endswith("::eq")):
+            return ("P", "T")
+        if is_ok_lit and (path_is(s[1], "PartialEq::ne") or s[1].endswith("::ne")):
+            return ("T", "P")
+        return None
+
+    return facts.PredFlow(fn, csw, cbool)
+
+
